@@ -428,7 +428,7 @@ def analyse(script, trace):
                 fail("fabricated|invented", "handler delivery `%s` is not %s, nor a value of any point" % (raw, where))
 
     def circumstance(e, until):
-        """the open finding F18 (a new TCP connection replaces the session while a response carrying
+        """the open finding "session replaced" (residual of F16: a new TCP connection replaces the session while a response carrying
         events awaits its confirm: the events stay in the written state) needs the master to have
         established a new connection while the event was in the buffer; the signature records it"""
         if any(e.mpos < r and (until is None or r < until) for r in reconnects):
